@@ -49,6 +49,7 @@ var watchModes = []string{"healthy", "never-connects", "connect-hangs", "closes"
 func runRelist(c *Ctx, r *relistRun) {
 	r.deadlock = sched.Bubble(c.T, func() {
 		srv := fakeapi.New()
+		srv.ShuffleLists = r.seed%2 == 1 // every second run: the items of each list in another order
 		srv.ListLatency = func(int) time.Duration { return r.latency }
 		srv.WatchBehave = func(n int, rv string) string {
 			switch r.mode {
